@@ -74,10 +74,25 @@ fn c05_scalarmult() {
     crypto_scalarmult(&mut q, &n, &p);
     kani::cover!(true, "returned");
     unsafe {
-        assert!(LDS.n == 1, "LADDER_ONCE: one variable-base multiplication");
-        assert!(LDS.scalar == clamp_spec(&n), "LADDER_SCALAR_IS_CLAMPED_N: the integer that reaches the ladder is clamp(n) itself, not a reduction of it mod the group order");
-        assert!(LDS.point == p, "LADDER_POINT_IS_P: the point encoding is passed through unmodified");
-        assert!(q == LDS.out, "OUTPUT_IS_LADDER_RESULT: the library's result is returned unmodified");
+        // the fixed-base routine computes X25519(n, 9); it may stand in for the ladder exactly when p encodes u = 9
+        let base_route = LDS.n == 0 && LDS.bp_n == 1 && LDS.tm_n == 1;
+        assert!((LDS.n == 1 && LDS.bp_n == 0) || base_route, "MULT_ONCE: exactly one scalar multiplication produces the result");
+        if base_route {
+            let mut is9 = p[0] == 9 && (p[31] & 0x7f) == 0;
+            let mut i = 1; while i < 31 { if p[i] != 0 { is9 = false; } i += 1; }
+            assert!(is9, "BASE_ROUTE_ONLY_FOR_BASEPOINT: the fixed-base routine replaces the ladder only when p encodes u = 9 (top bit ignored)");
+            if LDS.bp_clamped_api {
+                assert!(LDS.bp_scalar == clamp_spec(&n), "LADDER_SCALAR_IS_CLAMPED_N: the scalar is clamp(n)");
+            } else {
+                assert!(DKS.fmo_n == 1 && DKS.fmo_in[0] == clamp_spec(&n) && LDS.bp_scalar == DKS.fmo_out[0], "LADDER_SCALAR_IS_CLAMPED_N: the scalar is clamp(n) (reduced mod l, which the order-l base point permits)");
+            }
+            assert!(q == LDS.tm_out, "OUTPUT_IS_LADDER_RESULT: the library's result is returned unmodified");
+        } else {
+            assert!(LDS.scalar == clamp_spec(&n), "LADDER_SCALAR_IS_CLAMPED_N: the integer that reaches the ladder is clamp(n) itself, not a reduction of it mod the group order");
+            let mut pm = p; pm[31] &= 0x7f;
+            assert!(LDS.point == p || LDS.point == pm, "LADDER_POINT_IS_P: the point encoding is passed through unmodified (the ignored top bit may be cleared)");
+            assert!(q == LDS.out, "OUTPUT_IS_LADDER_RESULT: the library's result is returned unmodified");
+        }
     }
 }
 ''')
@@ -100,6 +115,10 @@ fn c05_scalarmult_base() {
 }
 ''')
 
+LOW_ORDER = ["00" * 32, "01" + "00" * 31, "e0eb7a7c3b41b8ae1656e3faf19fc46ada098deb9c32b1fd866205165f49b800", "5f9c95bca3508c24b1d0b1559c83ef5b04445cc4581c8e86d8224eddd09f1157",
+             "ec" + "ff" * 30 + "7f", "ed" + "ff" * 30 + "7f", "ee" + "ff" * 30 + "7f"]
+BODY += "pub const LOW_ORDER_U: [[u8; 32]; 7] = [%s];\n" % ", ".join("[" + ", ".join(str(b) for b in bytes.fromhex(h)) + "]" for h in LOW_ORDER)
+
 KX = r'''
 fn c05_kx_%(side)s() {
     let my_pk: [u8; 32] = kani::any(); let my_sk: [u8; 32] = kani::any(); let their_pk: [u8; 32] = kani::any();
@@ -109,6 +128,14 @@ fn c05_kx_%(side)s() {
     kani::cover!(r.is_ok(), "session keys derived");
     kani::cover!(r.is_err(), "refusal reachable");
     unsafe {
+        if AES.sm_n == 0 {
+            // refusing before the multiplication is right exactly for the encodings whose X25519 output is 0 for every scalar
+            let mut m = their_pk; m[31] &= 0x7f;
+            let mut low = false; let mut k = 0;
+            while k < 7 { if m == LOW_ORDER_U[k] { low = true; } k += 1; }
+            assert!(r.is_err() && low, "KX_DH: q = X25519(own secret key, peer public key) is computed unless the peer key is one of the low-order encodings (refused)");
+            return;
+        }
         assert!(AES.sm_n == 1 && AES.sm_scalar[0] == my_sk && AES.sm_point[0] == their_pk, "KX_DH: q = X25519(own secret key, peer public key)");
         let q = AES.sm_out[0];
         let mut zero = true; let mut i = 0; while i < 32 { if q[i] != 0 { zero = false; } i += 1; }
@@ -184,7 +211,7 @@ def x25519(k, u):
 def replay(v, scratch):
     role = v["role"]
     w = v.get("witness", {})
-    if role in ("LADDER_SCALAR_IS_CLAMPED_N", "LADDER_POINT_IS_P", "OUTPUT_IS_LADDER_RESULT"):
+    if role in ("LADDER_SCALAR_IS_CLAMPED_N", "LADDER_POINT_IS_P", "OUTPUT_IS_LADDER_RESULT", "MULT_ONCE", "BASE_ROUTE_ONLY_FOR_BASEPOINT"):
         ns = {}
         exec(X25519_PY, ns)
         n = bytes(((w.get("W_0") or []) + [0] * 32)[:32])
@@ -204,24 +231,35 @@ def replay(v, scratch):
         outs = runner.native_run(scratch, "c05", main)
         v["replay_input"] = {"n": list(n), "points": [list(p) for p in pts], "rfc7748": [list(x) for x in want], "program": main}
         return any(rc == 1 and "MISMATCH" in o for _, rc, o in outs), "; ".join("%s rc=%s %s" % (p, rc, o.strip()[-400:]) for p, rc, o in outs)
-    if role == "KX_ZERO_SECRET_REFUSED":
+    if role in ("KX_ZERO_SECRET_REFUSED", "KX_DH"):
+        # differential run against libsodium over the solver's peer key, the complete low-order table with and without the
+        # ignored top bit, and honest keys: same accept / refuse decision and same session keys
+        wpk = bytes(((w.get("W_2") or []) + [0] * 32)[:32])
+        pts = [wpk] + [bytes.fromhex(h) for h in LOW_ORDER] + [bytes.fromhex(h)[:31] + bytes([bytes.fromhex(h)[31] | 0x80]) for h in LOW_ORDER]
         main = r'''
+extern crate libsodium_sys;
 use dryoc::classic::crypto_kx::*;
 fn main() {
     let (cpk, csk) = crypto_kx_keypair();
-    let mut rx = [0u8; 32]; let mut tx = [0u8; 32];
-    // u = 0 and u = 1 are low-order points: X25519(k, u) = 0 for every clamped k; libsodium's crypto_kx_*_session_keys return -1
+    let (hpk, _hsk) = crypto_kx_keypair();
+    let mut peers: Vec<[u8; 32]> = vec![PEERS];
+    peers.push(hpk);
     let mut bad = false;
-    for u in [0u8, 1u8] {
-        let mut peer = [0u8; 32]; peer[0] = u;
-        if crypto_kx_client_session_keys(&mut rx, &mut tx, &cpk, &csk, &peer).is_ok() { println!("MISMATCH KX_ZERO_SECRET_REFUSED client accepted low-order peer key u={}", u); bad = true; }
-        if crypto_kx_server_session_keys(&mut rx, &mut tx, &cpk, &csk, &peer).is_ok() { println!("MISMATCH KX_ZERO_SECRET_REFUSED server accepted low-order peer key u={}", u); bad = true; }
+    for peer in peers.iter() {
+        for server in [false, true] {
+            let mut rx = [0u8; 32]; let mut tx = [0u8; 32]; let mut srx = [0u8; 32]; let mut stx = [0u8; 32];
+            let r = if server { crypto_kx_server_session_keys(&mut rx, &mut tx, &cpk, &csk, peer) } else { crypto_kx_client_session_keys(&mut rx, &mut tx, &cpk, &csk, peer) };
+            let rc = unsafe { if server { libsodium_sys::crypto_kx_server_session_keys(srx.as_mut_ptr(), stx.as_mut_ptr(), cpk.as_ptr(), csk.as_ptr(), peer.as_ptr()) }
+                              else { libsodium_sys::crypto_kx_client_session_keys(srx.as_mut_ptr(), stx.as_mut_ptr(), cpk.as_ptr(), csk.as_ptr(), peer.as_ptr()) } };
+            if r.is_ok() != (rc == 0) { println!("MISMATCH KX decision: peer {:02x?} server={} dryoc ok={} libsodium rc={}", peer, server, r.is_ok(), rc); bad = true; }
+            else if rc == 0 && (rx != srx || tx != stx) { println!("MISMATCH KX session keys differ from libsodium for peer {:02x?} server={}", peer, server); bad = true; }
+        }
     }
     if bad { std::process::exit(1); }
     println!("agree");
 }
-'''
-        outs = runner.native_run(scratch, "c05", main)
+'''.replace("PEERS", ", ".join(runner.rust_bytes(list(x)) for x in pts))
+        outs = runner.native_run(scratch, "c05", main, extra_deps='libsodium-sys = "0.2"\n')
         v["replay_input"] = {"program": main}
         return any(rc == 1 and "MISMATCH" in o for _, rc, o in outs), "; ".join("%s rc=%s %s" % (p, rc, o.strip()[-400:]) for p, rc, o in outs)
     return None, "no native replay template for role %s" % role
